@@ -150,3 +150,20 @@ theorem extractLoop_of_lex (d : Nat) : ∀ (x : Bytes) (toks : List CSObj), LexA
                 subst this
                 simp [runToks]
               · rfl
+
+theorem LexAll_skipWs {d : Nat} {x : Bytes} {toks : List CSObj} (h : LexAll d x toks) :
+    LexAll d (skipWs x) toks := by
+  cases h with
+  | nil hx => exact .nil (by rw [skipWs_idem, hx])
+  | cons hs ht =>
+    refine .cons ?_ ht
+    obtain ⟨h1, h2, h3⟩ := hs
+    exact ⟨by rw [skipWs_idem]; exact h1, by rw [skipWs_idem]; exact h2, by rw [skipWs_idem]; exact h3⟩
+
+/-- `extract` on any input that the tokenizer splits into `toks` -/
+theorem extract_of_lex {d : Nat} {x : Bytes} {toks : List CSObj} (h : LexAll d x toks) :
+    extract d x = runToks .content 0 [] toks := by
+  unfold extract
+  exact extractLoop_of_lex d _ _ (LexAll_skipWs h) _ _ _ _ (Nat.le_refl _)
+
+end Parsley.Content
